@@ -464,3 +464,35 @@ def rom_file_bytes(sc, title=b"VERIFTEST"):
         chk = (chk - img[i] - 1) & 0xFF
     img[0x14D] = chk
     return bytes(img)
+
+
+def load_probe_program(kind, rombanks, rambytes):
+    """Program for an accepted ROM file: touch the last declared ROM byte and every RAM bank, then print 'K'."""
+    a = Asm(0x150)
+    last = rombanks - 1
+    if kind == "mbc1":
+        a.emit(0x3E, last & 0x1F, 0xEA, 0x00, 0x20, 0x3E, (last >> 5) & 3, 0xEA, 0x00, 0x40)
+    elif kind == "mbc3":
+        a.emit(0x3E, last & 0x7F, 0xEA, 0x00, 0x20)
+    a.emit(0xFA, 0xFF, 0x7F)                       # LD A,(0x7FFF)
+    a.emit(0xFA, 0xFF, 0x3F)
+    if kind == "mbc1":
+        a.emit(0x3E, 0x01, 0xEA, 0x00, 0x60)       # RAM banking mode
+    for b in range(4):
+        if kind != "rom":
+            a.emit(0x3E, b, 0xEA, 0x00, 0x40)
+        a.emit(0xFA, 0x00, 0xA0, 0xFA, 0xFF, 0xBF, 0xEA, 0x00, 0xA0)
+    a.emit(0x3E, 0x4B, 0xE0, 0x01, 0x3E, 0x81, 0xE0, 0x02)
+    a.label("END"); a.jr(0x18, "END")
+    return a.resolve()
+
+def write_load_case_file(path, case):
+    flen = case["fileLen"]
+    with open(path, "wb") as f:
+        f.truncate(flen)
+        hdr = bytes(case["hdr"])
+        if flen > 0x100:
+            f.seek(0x100); f.write(hdr[:max(0, min(80, flen - 0x100))])
+        prog = bytes(load_probe_program(case["kind"] if case["kind"] != "unsupported" else "rom", case["romsize"] // 0x4000, case["ramsize"]))
+        if flen >= 0x150 + len(prog):
+            f.seek(0x150); f.write(prog)
